@@ -54,10 +54,13 @@ impl<T> AtomicOption<T> {
     #[cfg(may_verif)]
     pub fn store(&self, t: T) {
         let id = crate::verif::item_id(&t);
+        // the replaced value is dropped outside the hooked operation (its destructor may yield)
+        let mut old = None;
         crate::verif::op(self.site, self as *const _ as usize, "opt.store", id, 0, 0, || {
-            self.inner.store(Some(t));
+            old = self.inner.swap(Some(t));
             0
         });
+        drop(old);
     }
 
     #[cfg(may_verif)]
@@ -72,9 +75,11 @@ impl<T> AtomicOption<T> {
 
     #[cfg(may_verif)]
     pub fn clear(&self) {
+        let mut old = None;
         crate::verif::op(self.site, self as *const _ as usize, "opt.clear", 0, 0, 0, || {
-            self.inner.store(None);
+            old = self.inner.swap(None);
             0
         });
+        drop(old);
     }
 }
